@@ -26,7 +26,7 @@ def lemmas():
 EXPECTED_CLAUSES = ["_add_dir_watch.post[recursive: every directory found under the root is watched", "_add_dir_watch.post[non-recursive: only the root is watched]", "_add_watch.post[path -> descriptor recorded",
                     "read_events.record[IN_CREATE of a directory under a recursive watch", "read_events.record[second half of the rename of a watched directory", "read_events.record[IN_IGNORED",
                     "read_events.loop6.preserved[every visited key below the old path is re-keyed by prefix substitution", "read_events.loop6.preserved[keys outside both trees are untouched]",
-                    "read_events.record[watches are added only by a recursive instance", "read_events.loop5.preserved[move records of earlier batches are kept", "read_events.record[a directory that arrives without a known watched source", "_add_dir_watch.raises[path entries only accumulate]", "read_events.record[the event handed on carries the record's fields and the current path", "lemma[replace(a, b, 1) on a string with prefix a is prefix substitution]"]
+                    "read_events.record[watches are added only by a recursive instance", "read_events.loop5.preserved[move records of earlier batches are kept", "read_events.simulated[file: at most one made-up record", "read_events.simulated[directory: at most one made-up record", "read_events.record[a directory that arrives without a known watched source", "_add_dir_watch.raises[path entries only accumulate]", "read_events.record[the event handed on carries the record's fields and the current path", "lemma[replace(a, b, 1) on a string with prefix a is prefix substitution]"]
 CANARIES = [
     {"name": "an arriving directory without a known source is not watched (the repaired defect)", "file": FILE, "fn": "Inotify.read_events", "find": "                    elif self.is_recursive and inotify_event.is_directory:\n", "replace": "                    elif False:\n"},
     {"name": "forget the move records at the start of every batch", "file": FILE, "fn": "Inotify.read_events", "find": "            event_list = []\n", "replace": "            event_list = []\n            self._moved_from_events = {}\n"},
